@@ -7,7 +7,9 @@ case: ( trigger roller pre a0 ops )   -- see harness/src/rolling_c05.rs
            `time_script` from the trigger's documented schedule (the schedule itself is C16's subject)
   roller : [0] | [1, base, count, gz]
   pre    : [0] | [1, bytes]
-  roller : [1, base, count, gz, shape, bg]  shape 0/1/2 = index in file name / in directory and file name /
+  roller : [1, base, count, gz, shape, bg]  shape 3 = archives in a directory that is a symbolic link to ANOTHER
+           file system (rename refuses with EXDEV: move_file's copy+delete fall-back, compress across mounts);
+           shape 0/1/2 = index in file name / in directory and file name /
            in directory only; bg = 1: case for the `background_rotation` build (quiescence waits, pending snapshot)
   ops    : [0, [chunk...]] | [1, a] | [2, [[rec...]...]]  (burst of threads) | [3, t] (set the hook clock)
            | [4, a] hot restart (old instance stays alive) | [5, [chunk...]] append through the old instance
